@@ -141,8 +141,12 @@ def gate (toks : List String) : String :=
           otherCond := fun t => others.contains t }
       let (status, obs) := run env sk
       let ups := obs.filterMap (fun o => match o with | .upstream n => some n | _ => none)
+      -- the index page hands the value of the admin check to its template (`var IS_ADMIN = …`)
+      let showsFlag := r.handler == "indexHandler" && status == 200 && ups.isEmpty && method == "GET" &&
+        (paths sk).all (fun p => p.2.1.contains (.pureCall "isAuthorizedAdminRequest"))
       let reqs :=
-        if ups.all (fun n => (actionFor n).isSome) then
+        if showsFlag then (if isAdmin conf req then "isadmin=true" else "isadmin=false")
+        else if ups.all (fun n => (actionFor n).isSome) then
           joinOr (sortStrings (ups.flatMap (fun n => match actionFor n with
             | some a => ((requests w a).filter (observable w)).map renderReq
             | none => []))) "|"
